@@ -61,15 +61,30 @@ def wl_plain(ctx, rng, case):
             f = P.BloomFilter(est, rate, **bl.kw_hash(hf))
         ctx.check(f.number_bits == m and f.number_hashes == k, "geometry differs from the independent sizing", got=(f.number_bits, f.number_hashes), want=(m, k))
         shadow = []
+        keybuf = bytearray()
         prev_bits = bl.bits_of(f)
         nops = rng.randint(4, 40)
+        quiet = rng.choice([0, 0, 0, 2, 3, 5])
         for step in range(nops):
-            bl.noise_reads(ctx, rng, f, keys)
+            if not quiet:
+                bl.noise_reads(ctx, rng, f, keys)
             r = rng.random()
             cleared = False
             if r < 0.55 or not shadow:
                 key = rng.choice(keys)
-                if rng.random() < 0.8:
+                if isinstance(key, bytes) and hf is None and rng.random() < 0.3:
+                    # a bytes key handed over in a mutable buffer that the caller refills in place before the next call
+                    # (two or three keys back to back, no other call in between - a read loop)
+                    batch = [key] + [k2 for k2 in rng.sample(keys, min(len(keys), 4)) if isinstance(k2, bytes) and k2 != key][:2]
+                    case.op("add-from-reused-buffer", batch)
+                    view = keybuf if rng.random() < 0.6 else None
+                    for kb in batch:
+                        keybuf[:] = kb
+                        f.add(view if view is not None else memoryview(keybuf))
+                        if kb not in shadow:
+                            shadow.append(kb)
+                    ctx.count("adds_from_a_reused_buffer", len(batch))
+                elif rng.random() < 0.8:
                     case.op("add", key)
                     f.add(key)
                 else:
@@ -208,7 +223,13 @@ def wl_plain(ctx, rng, case):
                 f.check(key)
                 f.estimate_elements()
                 ctx.count("op.query")
-            # ---- oracles after every call
+            # ---- oracles after every call - or, in a quarter of the histories, only after every 2nd..5th call with NOTHING reading the
+            # filter in between (whatever a call remembers for the next one must still be right when several mutations follow each other)
+            if quiet and step % quiet and step != nops - 1:
+                if cleared:
+                    prev_bits = None
+                ctx.count("steps_without_any_read")
+                continue
             probe(ctx, f, shadow, f"after step {step} ({case.ops[-1][0]})", case)
             now = bl.bits_of(f)
             if prev_bits is not None and not cleared:
